@@ -439,6 +439,17 @@ func runC11(c *Ctx) {
 	for _, st := range fieldStores(nrd, "rt.namedReadCloser", "name") {
 		c.obI("R11.5", st, "keeps-name", st.Val == ssa.Value(nrd.Params[0]), "NamedReader keeps the name", "")
 	}
+	for _, r := range realReturns(nrd) {
+		ok, bad := allOrigins(resOf(r, 0), func(o Origin) bool {
+			al, isAl := o.V.(*ssa.Alloc)
+			if !isAl || !al.Heap {
+				return false
+			}
+			n, _ := structOf(al.Type())
+			return n != nil && typeFullName(n) == "rt.namedReadCloser"
+		})
+		c.obI("R11.5", r, "always-a-new-named-wrapper", ok, "NamedReader always returns a new wrapper carrying the name it was given (a reader that already has a name is still renamed: the part's file name is the name given here)", "origin "+describeOrigin(bad))
+	}
 	for _, m := range []string{"Read", "Close"} {
 		mf := p.Fn("(*rt.namedReadCloser)." + m)
 		n := 0
